@@ -6,6 +6,7 @@ From SF Require Import Unsized.Proofs.EncodeParse Unsized.Proofs.Mem Unsized.Pro
   Unsized.Proofs.Table Unsized.Proofs.Path Unsized.Proofs.Context Unsized.Proofs.Context2 Unsized.Proofs.Focus Unsized.Proofs.Pos
   Unsized.Proofs.FocusOps Unsized.Proofs.NotifyInside Unsized.Proofs.Resize Unsized.Proofs.GenOps Unsized.Proofs.GenOps2
   Unsized.Proofs.Init Unsized.Proofs.UInsert Unsized.Proofs.URemove Unsized.Proofs.History.
+From SF Require Import Unsized.Proofs.EnumFacts.
 
 Arguments Z.add : simpl never.
 Arguments Z.sub : simpl never.
@@ -690,11 +691,13 @@ Lemma resolve_app_intro : forall p r t v tc vc, resolve t v p = Some (tc, vc) ->
 Proof.
   induction p as [|st p IH]; intros r t v tc vc H.
   - cbn [resolve] in H. injection H as -> ->. reflexivity.
-  - cbn [app]. destruct st as [i|i]; cbn [resolve] in *.
+  - cbn [app]. destruct st as [i|i|]; cbn [resolve] in *.
     + destruct t as [| | | |ts|]; try discriminate. destruct v as [| | |vs|]; try discriminate.
       destruct (nth_error ts i); [|discriminate]. destruct (nth_error vs i); [|discriminate]. now apply IH.
     + destruct t as [| | |it k| |]; try discriminate. destruct v as [| |items| |]; try discriminate.
       destruct (nth_error items i); [|discriminate]. now apply IH.
+    + destruct t as [| | | | |rw vars]; try discriminate. destruct v as [| | | |d pv]; try discriminate.
+      destruct (find_variant d vars); [|discriminate]. now apply IH.
 Qed.
 
 (* the one-field wrapper: the path to the container inside *)
